@@ -306,7 +306,7 @@ struct ThrEngine : Engine {
         Plan p; p.engine = "thr"; p.mode = "thr"; p.seed = seed; p.cfg.set("property", "C18");
         int K = cfg.chance(0.7) ? (int)cfg.range(2, 4) : (int)cfg.range(5, 15); int per = (int)cfg.range(3, tier == "thorough" ? 40 : 14);
         int bclass = (int)cfg.below(3); int blo = 1, bhi = bclass == 0 ? 50 : bclass == 1 ? 2000 : 60000;
-        p.cfg.set("threads", K).setu("sched", root.fork("sched").next()).set("blo", blo).set("bhi", bhi).set("seqfirst", cfg.chance(0.5) ? 1 : 0).set("alone", root.fork("alone").chance(0.25) ? 1 : 0);
+        p.cfg.set("threads", K).setu("sched", root.fork("sched").next()).set("blo", blo).set("bhi", bhi).set("seqfirst", cfg.chance(0.5) ? 1 : 0).set("alone", root.fork("alone").chance(0.4) ? 1 : 0);
         const int dlts[7] = { gen::DLT_EN10MB_, gen::DLT_EN10MB_, gen::DLT_RAW_, gen::DLT_IEEE802_11_, gen::DLT_IEEE802_11_RADIO_, gen::DLT_LINUX_SLL_, gen::DLT_NULL_ };
         // a small TCP trace shared as data (each thread feeds its own follower)
         for (int t = 0; t < K; ++t) {
@@ -318,7 +318,7 @@ struct ThrEngine : Engine {
                     case 2: k.set("op", "frag").set("pl", wl.bytes((size_t)cfg.range(20, 400))).set("mtu", (int64_t)cfg.range(8, 120)).set("id", (int64_t)cfg.range(1, 65535)).set("ord", (int64_t)cfg.below(3)); break;
                     case 3: if (cfg.chance(0.35)) {   // a CCMP-protected data frame built by the independent implementation: 3- or 4-address, QoS or not, to/from the DS; the key is supplied directly
                                 wlan::DataSpec d; int shape = (int)cfg.below(4); d.to_ds = shape == 0 || shape == 3; d.from_ds = shape == 1 || shape == 3; d.qos = cfg.chance(0.6); d.tid = (uint8_t)cfg.below(16); d.seq = (uint16_t)cfg.below(4096); d.protected_ = true;
-                                Mac bss = Mac::of((uint8_t)(0x10 + t)), sta = Mac::of((uint8_t)(0x40 + t)), peer = Mac::of(0x77), peer2 = Mac::of(0x78); if (shape == 0) { d.a1 = bss; d.a2 = sta; d.a3 = peer; } else if (shape == 1) { d.a1 = sta; d.a2 = bss; d.a3 = peer; } else if (shape == 2) { d.a1 = peer; d.a2 = sta; d.a3 = bss; } else { d.a1 = bss; d.a2 = sta; d.a3 = peer; d.a4 = peer2; }
+                                Mac bss = Mac::of((uint8_t)(0x10 + t)), sta = Mac::of((uint8_t)(0x40 + t)), peer = Mac::of(0x77), peer2 = Mac::of(0x78); if (shape == 0) { d.a1 = bss; d.a2 = sta; d.a3 = peer; } else if (shape == 1) { d.a1 = sta; d.a2 = bss; d.a3 = peer; } else if (shape == 2) { d.a1 = peer; d.a2 = sta; d.a3 = bss; } else { d.a1 = peer; d.a2 = sta; d.a3 = bss; d.a4 = peer2; }   /* 4-address frame: libtins looks the key up under (addr2, addr3) */
                                 Bytes ptk = wl.bytes(64), plain = wlan::llc_snap(0x88b5, wl.bytes((size_t)cfg.range(1, 120))); Bytes f = wlan::data_header(d); wlan::Frame fh = wlan::parse_dot11(f.data(), f.size()); Bytes body = wcrypto::ccmp_encrypt(&ptk[32], fh.hdr(), (uint64_t)cfg.range(1, 1 << 30), 0, plain); putb(f, body);
                                 k.set("op", "ccmp").set("f", f).set("ptk", ptk).set("bss", Bytes(bss.b, bss.b + 6)).set("sta", Bytes(sta.b, sta.b + 6)); break; }
                             if (cfg.chance(0.5)) { k.set("op", "pmk").set("psk", fmt("pass%llu", (unsigned long long)(cfg.next() % 100000))).set("ssid", fmt("net%llu", (unsigned long long)(cfg.next() % 1000))); break; }
